@@ -16,6 +16,7 @@ pub mod c10;
 pub mod c11;
 pub mod c12;
 pub mod c13;
+pub mod c14;
 pub mod c15;
 pub mod c16;
 
@@ -34,6 +35,7 @@ pub fn run(id: &str, tier: Tier, seed: u64) -> Option<i32> {
         "C11" => c11::run(tier, seed),
         "C12" => c12::run(tier, seed),
         "C13" => c13::run(tier, seed),
+        "C14" => c14::run(tier, seed),
         "C15" => c15::run(tier, seed),
         "C16" => c16::run(tier, seed),
         _ => return None,
@@ -56,6 +58,7 @@ pub fn replay(prop: &str, case: &serde_json::Value) -> Result<u64, String> {
             c10::replay(case)
         }
         "c16-history" => c16::replay(case),
+        "c14-doc" | "c14-roundtrip" => c14::replay(case),
         "c08-step" | "c08-builder" => c08::replay(case),
         _ => Err(format!("no replay handler for property {prop} case kind {:?}", case["kind"])),
     }
